@@ -18,9 +18,10 @@ def _one(job):
     from vsg.vhdlFile import utils as vu
     from vsg.exceptions import ClassifyError
 
-    path, seed, per_rule = job
+    path, seed, per_rule = job[:3]
+    enable_all = len(job) > 3 and job[3]  # the rules that are switched off by default are switched on (about 80 of them)
     r = random.Random("%s/%s" % (seed, path))
-    out = {"path": path, "status": "ok", "problems": [], "writers": []}
+    out = {"path": path, "status": "ok", "problems": [], "writers": [], "enable_all": bool(enable_all)}
     sink = io.StringIO()
 
     def fresh(disabled=(), shuffle=False):
@@ -32,6 +33,8 @@ def _one(job):
         rl = rule_list.rule_list(o, oConfig.severity_list, None)
         apply_rules.configure_rules(oConfig, rl, oConfig.dConfig, 0, path)
         for x in rl.rules:
+            if enable_all and x.disable and not getattr(x, "deprecated", False):
+                x.disable = False
             if x.unique_id in disabled:
                 x.disable = True
         if shuffle:
@@ -62,7 +65,13 @@ def _one(job):
                         res = orig(oFile)
                         a = (_sig(o), _attrs(o))
                         if a != b:
-                            out["writers"].append({"rule": x.unique_id, "what": "text/class" if a[0] != b[0] else "attributes"})
+                            what = "text/class"
+                            if a[0] == b[0]:
+                                # which attributes: bookkeeping of the block comment rules is told apart from indent / hierarchy / code tags
+                                names = ("indent", "hierarchy", "code_tags", "iId", "has_tab", "is_block_comment", "block_comment_indent")
+                                ch = sorted({names[k] for p_, q_ in zip(b[1], a[1]) if p_ != q_ for k in range(len(names)) if p_[k] != q_[k]})
+                                what = "attributes" if ch == ["indent"] else "attributes(" + "+".join(ch) + ")"
+                            out["writers"].append({"rule": x.unique_id, "what": what})
                         return res
 
                     x.analyze = an
@@ -132,6 +141,20 @@ def run(tier):
         ck.broken_tie(b[:80], b)
     files = corpus.sample(400 if tier == "thorough" else 64, "c06", [f for f in corpus.files() if os.path.getsize(f) < 20000])
     jobs = [(f, vlib.seed(), i % (4 if tier == "thorough" else 8) == 0) for i, f in enumerate(files)]
+    # the same with every default-disabled rule switched on, per-rule snapshots on (files with comments first: the
+    # block comment, comment and naming rules are among them)
+    rich = sorted(files, key=lambda f: -open(f, errors="replace").read().count("--"))[: (120 if tier == "thorough" else 12)]
+    # ... and the fixtures of those rules themselves
+    import glob as _glob, ruletable as _rt
+
+    own = []
+    for row in _rt.load():
+        if row.get("disable") and not row.get("deprecated"):
+            d_ = os.path.join(vlib.REPO, "tests", row["module"].split(".")[2])
+            own += sorted(_glob.glob(os.path.join(d_, "rule_%s_test_input*.vhd" % row["identifier"]))) + sorted(_glob.glob(os.path.join(d_, "example*.vhd")))
+    own = sorted(set(own))
+    rich += own if tier == "thorough" else vlib.rng("c06own").sample(own, min(len(own), 24))
+    jobs += [(f, vlib.seed(), True, True) for f in rich]
     with Pool(vlib.NCPU) as p:
         res = p.map(_one, jobs, chunksize=2)
     nv = 0
